@@ -160,6 +160,55 @@ fn contains_newline<T>(chunks: &[StringChunk<T>]) -> bool {
     })
 }
 
+/// Would these chunks be read back unchanged if they were printed as a multiline string?
+///
+/// The parser strips the common indentation of a multiline string, drops its first and last line
+/// when they are blank, and recomputes the indentation level of interpolated expressions (see
+/// [crate::utils::strip_indent]). The pretty-printer adds a uniform indentation and a first and a
+/// last line; this function runs the parser's procedure on the result and checks that it gives
+/// back the original chunks. It doesn't for example for `"  a\n  b"` (common indentation),
+/// `" \n "` (blank lines only) or `"a\n  %{x}"` when it comes from a standard string (the
+/// indentation level of `x` would become 2).
+fn multiline_roundtrips<'ast>(chunks: &[StringChunk<Ast<'ast>>]) -> bool {
+    // Adjacent literals are fused, as the lexer and the parser do.
+    fn push<'ast>(probe: &mut Vec<StringChunk<Ast<'ast>>>, chunk: StringChunk<Ast<'ast>>) {
+        match (probe.last_mut(), chunk) {
+            (Some(StringChunk::Literal(prev)), StringChunk::Literal(s)) => prev.push_str(&s),
+            (_, chunk) => probe.push(chunk),
+        }
+    }
+
+    // What the parser makes of a sequence of chunks, up to empty literals.
+    fn normalize(chunks: &[StringChunk<Ast<'_>>]) -> Vec<(Option<String>, usize)> {
+        let mut result: Vec<(Option<String>, usize)> = Vec::new();
+
+        for chunk in chunks {
+            match chunk {
+                StringChunk::Literal(s) if s.is_empty() => (),
+                StringChunk::Literal(s) => match result.last_mut() {
+                    Some((Some(prev), _)) => prev.push_str(s),
+                    _ => result.push((Some(s.clone()), 0)),
+                },
+                StringChunk::Expr(_, indent) => result.push((None, *indent)),
+            }
+        }
+
+        result
+    }
+
+    let mut probe: Vec<StringChunk<Ast<'ast>>> = Vec::with_capacity(chunks.len() + 2);
+
+    push(&mut probe, StringChunk::Literal(String::from("\n")));
+    for chunk in chunks {
+        push(&mut probe, chunk.clone());
+    }
+    push(&mut probe, StringChunk::Literal(String::from("\n")));
+
+    crate::utils::strip_indent(&mut probe);
+
+    normalize(&probe) == normalize(chunks)
+}
+
 /// Does a sequence of `StringChunk`s contain a carriage return? Lone carriage
 /// returns are forbidden in Nickel's surface syntax.
 fn contains_carriage_return<T>(chunks: &[StringChunk<T>]) -> bool {
@@ -400,7 +449,8 @@ impl Allocator {
     ) -> DocBuilder<'a, Self> {
         let multiline = string_style == StringRenderStyle::Multiline
             && contains_newline(chunks)
-            && !contains_carriage_return(chunks);
+            && !contains_carriage_return(chunks)
+            && multiline_roundtrips(chunks);
 
         let nb_perc = if multiline {
             chunks
